@@ -86,32 +86,86 @@ structure DataBlock where
 
 def hasFlag (flags f : Nat) : Bool := flags &&& f != 0
 
-/-- `process_block` (block_processor.c:10-45); the checksum is not modelled -/
+/-- `process_block` (block_processor.c:10-48); the checksum is not modelled.  Since /repo 47f7b3d a block that
+carries `SQFS_BLK_FRAGMENT_BLOCK` is exempt from the sparse test just like one that carries `IGNORE_SPARSE`. -/
 def processBlock (cmp : Codec) (b : DataBlock) : DataBlock :=
   if b.data = [] then b                                                                  -- :16
-  else if !hasFlag b.flags blkIgnoreSparse && b.data.all (· == 0) then                  -- :19
+  else if !hasFlag b.flags (blkIgnoreSparse ||| blkFragmentBlock) && b.data.all (· == 0) then   -- :21-23
     { b with flags := b.flags ||| blkIsSparse }
-  else if hasFlag b.flags (blkIsFragment ||| blkDontCompress) then b                    -- :31
+  else if hasFlag b.flags (blkIsFragment ||| blkDontCompress) then b                    -- :34
   else
     match cmp b.data with
-    | some c => if c.length > 0 then ⟨b.flags ||| blkIsCompressed, c⟩ else b             -- :39-43
+    | some c => if c.length > 0 then ⟨b.flags ||| blkIsCompressed, c⟩ else b             -- :42-46
     | none => b
 
-/-- the size word stored in the inode / fragment table (`process_completed_block`, backend.c:104-106) -/
+/-- the size word stored in the inode's block list / the fragment table (`process_completed_block`,
+backend.c:99-101; the block writer builds the same word, block_writer.c:139-141): the stored size with bit 24
+set when the block is *not* compressed -/
 def sizeWord (b : DataBlock) : Nat :=
   if hasFlag b.flags blkIsCompressed then b.data.length else b.data.length ||| (1 <<< 24)
 
+/-- what `process_completed_block` (backend.c:55-128) records for a finished block, as (word stored at the block's
+index in the inode's block list, word stored in the fragment table), `none` = untouched: a sparse block puts 0 into
+the inode's list (:88-97); a non-empty block gets `sizeWord` — in the fragment table if it carries
+`SQFS_BLK_FRAGMENT_BLOCK`, else in the inode (:98-121); an empty block records nothing -/
+def completedWords (b : DataBlock) : Option Nat × Option Nat :=
+  if hasFlag b.flags blkIsSparse then (some 0, none)
+  else if b.data.length ≠ 0 then
+    (if hasFlag b.flags blkFragmentBlock then (none, some (sizeWord b)) else (some (sizeWord b), none))
+  else (none, none)
+
 /-! ### `sqfs_write_table` -/
 
-/-- chunks of at most 8 KiB, as the `while (table_size > 0)` loop of write_table.c:49-62 hands them over -/
+/-- bytes a list of metadata blocks occupies on disk (2-byte header + stored bytes each, meta_writer.c:60) -/
+def outBytes (bs : List Block) : Nat := (bs.map (fun b => b.stored.length + 2)).sum
+
+/-- chunks of at most 8 KiB, as the `while (table_size > 0)` loop of write_table.c:44-57 hands them over -/
 def chunksOf : Nat → Bytes → List Bytes
   | 0, _ => []
   | f + 1, data => if data = [] then [] else data.take metaBlockSize :: chunksOf f (data.drop metaBlockSize)
 
-/-- the blocks and (relative) locations `sqfs_write_table` produces for a table -/
+/-- the loop of write_table.c:44-57: `locations[blkidx++] = file->get_size(file)` *before* the chunk is appended.
+`base` = size of the file when `sqfs_write_table` is entered; the meta writer is created with flags 0, so every
+flushed block is in the file and `get_size` = `base + outBytes st.out`. -/
+def writeTableGo (cmp : Codec) (base : Nat) : List Bytes → St → List Nat → St × List Nat
+  | [], st, locs => (st, locs)
+  | c :: cs, st, locs => writeTableGo cmp base cs (append cmp st c) (locs ++ [base + outBytes st.out])
+
+structure Table where
+  blocks : List Block       -- the metadata blocks written at `base`
+  locs : List Nat           -- the u64 location list written at `start`
+  start : Nat               -- `*start`: where the location list begins (what the superblock records)
+  deriving Repr
+
+/-- the blocks and (relative) locations `sqfs_write_table` produces for a table — the first, coarser model (locations
+recomputed from the finished block list), kept for its users (C01 `Enc*`, C17 `C17Export`);
+`Sqfs.MetaWriter.writeTable_eq_writeTableM` shows it is `writeTableM` at base 0 -/
 def writeTable (cmp : Codec) (data : Bytes) : List Block × List Nat :=
   let st := run cmp (chunksOf (data.length + 1) data)
   let locs := (st.out.foldl (fun (acc : List Nat × Nat) b => (acc.1 ++ [acc.2], acc.2 + 2 + b.stored.length)) ([], 0)).1
   (st.out, locs)
+
+/-- `sqfs_write_table` (write_table.c:20-81) for a table of `data.length` bytes written to a file of `base` bytes,
+with the locations taken where the C code takes them (`get_size` before every chunk) -/
+def writeTableM (cmp : Codec) (base : Nat) (data : Bytes) : Table :=
+  let r := writeTableGo cmp base (chunksOf (data.length + 1) data) {} []
+  let st := flush cmp r.1                                              -- :59
+  { blocks := st.out, locs := r.2, start := base + outBytes st.out }  -- :64
+
+/-! ### `SQFS_META_WRITER_KEEP_IN_MEMORY` + `sqfs_meta_write_write_to_file`
+
+The directory table is written through a meta writer created with `KEEP_IN_MEMORY` (init.c): `flush` then links
+the finished block into `m->list` instead of calling `write_block` (meta_writer.c:134-144); everything else
+(`block_offset`, the chunking, the compressor call) is the same state machine, so `St.out` stands for `m->list`.
+`sqfs_meta_write_write_to_file` (meta_writer.c:197-215) writes the list to the file in order and empties it. -/
+
+structure Keep where
+  st : St := {}
+  file : List Block := []     -- what `write_block` has put into the file so far
+  deriving Repr
+
+def Keep.append (cmp : Codec) (k : Keep) (d : Bytes) : Keep := { k with st := MetaWriter.append cmp k.st d }
+def Keep.flush (cmp : Codec) (k : Keep) : Keep := { k with st := MetaWriter.flush cmp k.st }
+def Keep.writeToFile (k : Keep) : Keep := { st := { k.st with out := [] }, file := k.file ++ k.st.out }
 
 end Sqfs.MetaWriter
